@@ -27,6 +27,10 @@ checks = {
    text="14 concurrency scenarios (2-3 callers, streaming/literal/IDLE/AUTHENTICATE commands, environment-chosen connection drop, concurrent Close/State/Caps/Mailbox) on the real client under a controlled scheduler with points before every lock, after every unlock and at every channel/select/spawn/connection operation; all schedules within preemption bound 1 (2 thorough) and delay bound 2 (3 thorough); verdict by the scheduler (all threads finish, no panic), wire tags pairwise distinct",
    note="data races themselves are invisible to a cooperative scheduler (their behavioural consequences are explored); execution caps per scenario are reported with the bound completed",
    technique="stateless model checking of the implementation: preemption-bounded and delay-bounded exhaustive schedule exploration under a controlled scheduler"),
+ "C14": dict(level=MC, design="DESIGN.md §4 C14",
+   text="the real imapserver + real in-memory backend under a controlled scheduler (every lock, unlock, channel op, select, goroutine spawn and connection read/write is a scheduling point): 2 (3) sessions on shared mailboxes A/B, every ordered pair of racing commands from an 18-command alphabet x every assignment of selected mailboxes (includes opposite-direction COPY/MOVE), same-history runs, triples (thorough); per scenario all schedules within delay bound 2 (3) and preemption bound 1; verdict by the scheduler: deadlock = no enabled thread (reported with the lock each thread waits for), plus exactly one tagged completion per command and no panic",
+   note="server writes never block (peers drain); execution cap per scenario and mode reported; data races as such are outside a cooperative scheduler's sight",
+   technique="stateless model checking of the implementation: delay-bounded and preemption-bounded exhaustive schedule exploration under a controlled scheduler"),
  "C15": dict(level=MC, design="DESIGN.md §4 C15",
    text="explicit-state BFS (to closure) over AddNum/AddRange/AddSet sequences on the real set types against an explicit-membership model, every transition executed on the real code; exhaustive text enumeration against an independent ABNF recogniser",
    note="bounded endpoint alphabet {1,2,3,4,6,M-2,M-1,M,*}; probe universe {1..8,M-3..M}; Nums() only for static cardinality <= 10^4, in a resource-limited worker",
